@@ -82,9 +82,9 @@ Print Assumptions C11_fresh_reading_per_batch.
    (private constants, bounds, unit factors; the files are SiteMap.files_C11) are today the ones the
    model was written against. Gen/Sites.v num_literals is regenerated from /repo on every run; a
    changed, added or removed number in a modelled function breaks this obligation ---- *)
-Require RV.Gen.Sites RV.Model.SiteMap RV.Proofs.SitesFacts.
+Require RV.Gen.Sites RV.Model.SiteMap RV.Proofs.SitesLits.
 Theorem C11_literals_reviewed : RV.Model.SiteMap.literals_ok RV.Model.SiteMap.files_C11.
-Proof. apply RV.Proofs.SitesFacts.literals_okb_sound. vm_compute. reflexivity. Qed.
+Proof. apply RV.Proofs.SitesLits.literals_okb_sound. vm_compute. reflexivity. Qed.
 Print Assumptions C11_literals_reviewed.
 
 (* ---- the signed response AS TRANSLATED FROM THE SOURCE on this run (Gen/Code.v, by /verif/rs2coq
